@@ -65,6 +65,12 @@ def c13(run):
     run.add(tlc, s)
     run.rule += ("  ||  and every history to depth %d ending in the reph key over 25 values: three consonants, khanda-ta, ALL ten vowel signs, a vowel, hasanta, "
                  "chandrabindu, anusvara, visarga, ZWNJ, punctuation, digit, reph / ro-fola / zo-fola keys" % dc)
+    tlc, s = run_tlc_replay(run, "MC_Reph_cons", "MC_Fixed.tla",
+                            dict(spec="Spec", constants={"Depth": 4, "Alphabet": '"rephcons"'},
+                                 invariants=["ImplRefinesProp", "Emit"]),
+                            "C13", workers=8, threads=8)
+    run.add(tlc, s)
+    run.rule += ("  ||  and every history of <= 4 keys ending in the reph key over EVERY one of the 36 consonants, hasanta and two vowel signs")
     # option off: the reph key simply appends its value -- covered by the full alphabet with reph off
     tlc, s = run_tlc_replay(run, "MC_Fixed_d3", "MC_Fixed.tla",
                             dict(spec="Spec", constants={"Depth": 3, "Alphabet": '"full"'},
@@ -82,16 +88,24 @@ def c14(run):
                 "sequence with it off (product construction, invariant OldOrderEquiv + WaitingSign); every maximal word is typed into two real "
                 "contexts and the pre-edit texts are compared after every whole syllable.  Non-trivial = every replayed word pair.")
     if run.quick():
-        n, rich = 2, "FALSE"
+        n, rich = 2, "base"
     else:
-        n, rich = 2, "TRUE"
+        n, rich = 2, "rich"
     tlc, s = run_tlc_replay(run, "MC_OldKar", "MC_OldKar.tla",
-                            dict(spec="Spec", constants={"MaxSyl": n, "Rich": rich},
+                            dict(spec="Spec", constants={"MaxSyl": n, "Rich": '"%s"' % rich},
                                  invariants=["OldOrderEquiv", "WaitingSign", "Emit"]),
                             "C14", workers=8, threads=8)
     run.add(tlc, s)
+    # consonant sweep: every one of the 36 consonants as onset, as first and as second member of a conjunct (second syllable)
+    tlc, s = run_tlc_replay(run, "MC_OldKar_cons", "MC_OldKar.tla",
+                            dict(spec="Spec", constants={"MaxSyl": 2, "Rich": '"cons"'},
+                                 invariants=["OldOrderEquiv", "WaitingSign", "Emit"]),
+                            "C14", workers=8, threads=8)
+    run.add(tlc, s)
+    run.rule += ("  ||  consonant sweep: every one of the 36 consonants alone, as first and as second member of a conjunct, with every sign / chandrabindu, as second "
+                 "syllable after a plain consonant or punctuation")
     run.assumptions += ["only grammar-generated words are compared; behaviour of old-order typing on ill-formed key sequences is descriptive",
-                        "bounded: words of <= %d syllables, onset set %s" % (n, "rich" if rich == "TRUE" else "base")]
+                        "bounded: words of <= %d syllables, onset set %s" % (n, rich)]
 
 
 def c04(run):
